@@ -5,7 +5,7 @@
 # 3. applies the patch to /repo, runs the given checks, restores /repo
 set -u
 WT=$1; ID=$2; shift 2
-S=$WT/_seed
+S=$WT/${SEED:-_seed}
 [ -f $S/patch.diff ] || { echo "no patch"; exit 3; }
 cd $WT
 # (no git stash: refs/stash is shared between worktrees)
@@ -36,3 +36,4 @@ cd /verif
 for c in "$@"; do
   VERIF_REPO=$WT ./check $c 2>&1 | grep -E "^VIOLATION|^SUMMARY|^HARNESS|^NONREPRO|atom=" | cut -c1-260 | head -6
 done
+git -C $WT checkout -q -- odc
